@@ -1,2 +1,51 @@
+/-
+Line-protocol driver for the executable models (no Mathlib anywhere below this file).
+One request per input line, one reply per output line.  Unknown or malformed
+requests answer `bad-op` — never a default value.
+-/
+import PyAbel.Model.Proto
 import PyAbel.Model.Symmetry
-def main : IO Unit := IO.println "stub"
+open PyAbel PyAbel.Proto
+
+def axOfNat : Nat → Option SymAxis
+  | 0 => some .none | 1 => some .v | 2 => some .h | 3 => some .both | _ => none
+
+def showImg (im : Img Float) : String :=
+  s!"ok {im.rows} {im.cols} " ++ showFloats im.toList
+
+def handle (toks : List String) : String :=
+  match toks with
+  -- sym rows cols ax u0 u1 u2 u3 <pixels…>   →  symmetrise (put ∘ get, 'average')
+  | "sym" :: r :: c :: ax :: u0 :: u1 :: u2 :: u3 :: rest =>
+    match r.toNat?, c.toNat?, ax.toNat? >>= axOfNat, parseBool u0, parseBool u1, parseBool u2, parseBool u3,
+          parseFloats rest with
+    | some r, some c, some ax, some u0, some u1, some u2, some u3, some xs =>
+      if xs.size ≠ r * c then "bad-op" else
+      let m : Mask := ⟨u0, u1, u2, u3⟩
+      if !admissible ax m then "raise" else
+      showImg (symmetrise (Img.ofArray r c 0.0 xs) ax m)
+    | _, _, _, _, _, _, _, _ => "bad-op"
+  -- quads rows cols ax u0..u3 <pixels…>   →  the four quadrants of get_image_quadrants
+  | "quads" :: r :: c :: ax :: u0 :: u1 :: u2 :: u3 :: rest =>
+    match r.toNat?, c.toNat?, ax.toNat? >>= axOfNat, parseBool u0, parseBool u1, parseBool u2, parseBool u3,
+          parseFloats rest with
+    | some r, some c, some ax, some u0, some u1, some u2, some u3, some xs =>
+      if xs.size ≠ r * c then "bad-op" else
+      let m : Mask := ⟨u0, u1, u2, u3⟩
+      if !admissible ax m then "raise" else
+      let q := getQuadrants (Img.ofArray r c 0.0 xs) ax m
+      s!"ok {q.q0.rows} {q.q0.cols} " ++ showFloats (q.q0.toList ++ q.q1.toList ++ q.q2.toList ++ q.q3.toList)
+    | _, _, _, _, _, _, _, _ => "bad-op"
+  | _ => "bad-op"
+
+partial def loop (h : IO.FS.Stream) (out : IO.FS.Stream) : IO Unit := do
+  let line ← h.getLine
+  if line.isEmpty then return ()
+  let toks := (line.trimAscii.toString.splitOn " ").filter (· ≠ "")
+  out.putStrLn (handle toks)
+  loop h out
+
+def main : IO Unit := do
+  let out ← IO.getStdout
+  loop (← IO.getStdin) out
+  out.flush
